@@ -177,15 +177,15 @@ fn run_on_this_thread(
     libc_seam::set_rt_ok(false);
     ctx.clock_ready.store(false, Ordering::Release);
     if res.is_err() {
-        // the world future itself panicked (not a spawned task)
+        // The world future itself panicked (not a spawned task). Worlds must isolate calls into
+        // the code under test that may panic (spawn / catch_unwind), so this is a harness error
+        // wherever the panic location is.
         let panics = ctx.panics.lock().unwrap();
-        let last = panics.last().map(|p| p.location.clone()).unwrap_or_default();
-        if panics.is_empty() || is_harness_location(&last) {
-            harness_error = Some(format!(
-                "harness panic at {last}: {}",
-                panics.last().map(|p| p.message.clone()).unwrap_or_default()
-            ));
-        }
+        harness_error = Some(format!(
+            "world future panicked at {}: {}",
+            panics.last().map(|p| p.location.clone()).unwrap_or_default(),
+            panics.last().map(|p| p.message.clone()).unwrap_or_default()
+        ));
     }
     let t1 = libc_seam::raw_clock_ns(libc::CLOCK_MONOTONIC);
     drop(rt);
